@@ -547,7 +547,8 @@ def _fix_loopvars(items: list, in_for: bool) -> None:
 def gen_chain(rng) -> dict[str, Any]:
     n = rng.choice([1, 2, 2, 3, 3, 3, 4, 4])
     names = ["a", "b", "c", "d"][: rng.choice([2, 3, 4])]
-    tnames = [f"t{i}" for i in range(n)]
+    nstyle = rng.choice(["plain", "plain", "dirs", "samebase"])  # a loaded template's own name is its basename, not the name the tag asked for
+    tnames = [{"plain": f"t{i}", "dirs": f"layouts/s{i}/t{i}", "samebase": f"d{i}/t"}[nstyle] for i in range(n)]
     special = rng.random()
     dup_in = rng.randrange(n) if special < 0.05 else None
     mismatch_in = rng.randrange(n) if 0.05 <= special < 0.10 else None
